@@ -234,7 +234,9 @@ def r2_ordinal(ctx, cfg='A'):
     tm = peel(f.expr_operand(s.args[2], s.b, 'T'))
     c = cnt[1] if (cnt[0] == 'field' and cnt[1][0] == 'bin') else cnt
     ok_cnt = c[0] == 'bin' and c[1].startswith('Add') and peel(c[2])[0] == 'field' and CNT is not None and peel(c[2])[2] == CNT and c[3] == ('int', 1)
-    ok_tm = tm[0] == 'field' and tm[2] == '1' and peel(tm[1])[0] == 'call' and peel(tm[1])[1].endswith('FutureEventSet::fetch_next')
+    from .dispatch import frame_component
+    fc = frame_component(f.program, tm)
+    ok_tm = fc is not None and fc[0] == 'time' and fc[1][0] == 'call' and fc[1][1].endswith('FutureEventSet::fetch_next')
     from .dispatch import limit_fields
     LBASE, LOVR = limit_fields(ctx, cfg)
     ok_recv = LBASE == 'limit' or (recv[0] == 'field' and recv[2] == 'limit')
